@@ -132,6 +132,46 @@ theorem foldl_applyOut_no_ring (wt : K → K) (ct : K) (outs : List Out) :
     rw [o2, o1]
     simp [ringsOf, h o (by simp)]
 
+theorem withReg_suspended (w : World K) (f : (List (K × K × K) → K × K) → Reg K) :
+    (w.withReg f).suspended = w.suspended := by
+  unfold World.withReg
+  simp only []
+  exact ite_proj (fun x : World K => x.suspended) _ _ _ _ rfl rfl
+
+theorem applyOut_suspended (wt : K → K) (ct : K) (w : World K) (o : Out) :
+    (World.applyOut wt ct w o).suspended = w.suspended := by
+  unfold World.applyOut
+  cases o <;> simp only []
+  all_goals first
+    | (split <;> rfl)
+    | skip
+  · split
+    · rfl
+    · split
+      · exact withReg_suspended _ _
+      · exact withReg_suspended _ _
+  · split
+    · rfl
+    · exact withReg_suspended _ _
+  · split
+    · rfl
+    · split
+      · split
+        · split <;> rfl
+        all_goals rfl
+      · split
+        · split
+          · split <;> rfl
+          all_goals rfl
+        · rfl
+
+theorem foldl_applyOut_suspended (wt : K → K) (ct : K) (outs : List Out) :
+    ∀ (w : World K), (outs.foldl (World.applyOut wt ct) w).suspended = w.suspended := by
+  induction outs with
+  | nil => intro w; rfl
+  | cons o rest ih => intro w; simp only [List.foldl_cons]; rw [ih, applyOut_suspended]
+
+
 /-! ### What the handlers emit -/
 
 theorem onSetting_no_ring (b : Bot) (k : String) (v : SVal) : ∀ o ∈ (b.onSetting k v).2, o.isRing = false := by
